@@ -337,3 +337,86 @@ Definition d_handle (c : dcfg) (parents : list json) (s : src) (ev : event) : li
   | SParent => d_on_parent_event c ev
   | SChild => d_on_child_event c parents ev
   end.
+
+(* ====================== related objects (customize.Manager) ====================== *)
+(* pkg/controller/common/customize/manager.go: onRelatedAdd/Update/Delete,
+   notifyRelatedParents, findRelatedParents (193-291), matchesRelatedRule (322-358).
+   The customize hook's answer for a parent is cached under (uid, generation);
+   `answers` is that cache after the lookups of the call (a parent without an
+   entry is one whose hook call failed: it is skipped). *)
+Record rel_rule := mkRR {
+  rr_api_version : string;
+  rr_kind : option string;                 (* kind of rule.resource per discovery; None: unknown resource *)
+  rr_selector : option (option selector);  (* None: no labelSelector; Some None: it does not convert *)
+  rr_namespace : string;
+  rr_names : list string
+}.
+
+Record rcfg := mkRCfg {
+  r_parent_kinds : list (string * string * bool)   (* parentKinds: (group, kind) -> namespaced *)
+}.
+
+Definition r_parent_namespaced (c : rcfg) (p : json) : option bool :=
+  match find (fun e => String.eqb (fst (fst e)) (d_group_of (get_api_version p)) &&
+                       String.eqb (snd (fst e)) (get_kind p)) (rev (r_parent_kinds c)) with
+  | Some e => Some (snd e)
+  | None => None
+  end.
+
+Definition answers := list (string * Z * list rel_rule).
+
+Definition answer_of (a : answers) (p : json) : option (list rel_rule) :=
+  match find (fun e => String.eqb (fst (fst e)) (get_uid p) && Z.eqb (snd (fst e)) (get_generation p)) a with
+  | Some e => Some (snd e)
+  | None => None
+  end.
+
+(* matchesRelatedRule, every error read as "no match" (the caller logs and continues) *)
+Definition matches_related_rule (parent_namespaced : bool) (parent related : json) (rule : rel_rule) : bool :=
+  match rr_kind rule with
+  | None => false
+  | Some k =>
+      if negb (String.eqb (get_api_version related) (rr_api_version rule) && String.eqb (get_kind related) k) then false else
+      let has_sel := match rr_selector rule with Some _ => true | None => false end in
+      let has_nn := negb (String.eqb (rr_namespace rule) "") || negb (Nat.eqb (List.length (rr_names rule)) 0) in
+      let names_ok := if Nat.eqb (List.length (rr_names rule)) 0 then true else mem_str (get_name related) (rr_names rule) in
+      if has_sel && has_nn then false
+      else if has_nn then
+        if parent_namespaced then
+          if negb (String.eqb (rr_namespace rule) "") && negb (String.eqb (get_ns parent) (rr_namespace rule)) then false
+          else if negb (String.eqb (get_ns parent) (get_ns related)) then false
+          else names_ok
+        else if negb (String.eqb (rr_namespace rule) "") && negb (String.eqb (get_ns related) (rr_namespace rule)) then false
+        else names_ok
+      else
+        match rr_selector rule with
+        | None => true
+        | Some None => false
+        | Some (Some s) => sel_matches s (get_labels related)
+        end
+  end.
+
+(* the cached answer of p selects one of the given states of the related object *)
+Definition parent_selects_related (c : rcfg) (a : answers) (relateds : list json) (p : json) : bool :=
+  match answer_of a p, r_parent_namespaced c p with
+  | Some rules, Some nsd =>
+      existsb (fun rule => existsb (fun rel => matches_related_rule nsd p rel rule) relateds) rules
+  | _, _ => false
+  end.
+
+Definition find_related_parents (c : rcfg) (a : answers) (parents : list json) (relateds : list json) : list json :=
+  filter (parent_selects_related c a relateds) parents.
+
+(* the objects handed to enqueueParent *)
+Definition on_related_event (c : rcfg) (a : answers) (parents : list json) (ev : event) : list json :=
+  match ev with
+  | EAdd o => find_related_parents c a parents [o]        (* a deleting object goes through onRelatedDelete: the same *)
+  | EUpdate old cur =>
+      if String.eqb (get_rv old) (get_rv cur) then [] else find_related_parents c a parents [old; cur]
+  | EDelete o => find_related_parents c a parents [o]
+  | EDeleteTombstone _ o => find_related_parents c a parents [o]
+  end.
+
+(* composed with the composite controller's enqueueParent = enqueueParentObject *)
+Definition related_keys (cc : ecfg) (c : rcfg) (a : answers) (parents : list json) (ev : event) : list string :=
+  flat_map (fun p => enqueue_parent cc (WObj p)) (on_related_event c a parents ev).
